@@ -67,12 +67,12 @@ PROPS = {
     'C09': {
         'level': 'proof',
         'explanation': "Phase proofs on the real text of Table.inner_join, for an ARBITRARY number of rows and arbitrary key values (one key column and one payload column per side): (1) index-build loop invariant - bucket(k) is exactly the ascending list of right rows with key k, with a ghost position witness for completeness; (2) probe and emit loop invariants - the output buffers consist of one contiguous block per left row, in left order, holding one row per entry of that row's bucket in ascending right order with the paired rows' cells (four variants enumerate the valid expect values; the two cross-cardinality ones run in the thorough tier); (3) exit assertion - the returned table is the buffers wrapped column by column under the input columns' names, and has no columns when nothing matched. Together: exactly one output row per key-equal pair, left-major / right-ascending. Each phase assumes the earlier invariants at loop exits only (listed as assumptions; they are obligations of the sibling variant in the same check). Two-key-column variants of the index and probe phases run in the thorough tier. Table._validate_join_keys is under a discharged contract for Vector and two-Vector-list specs (returns the given vectors themselves, rejects keys whose length differs from the table), so the loops do not assume key lengths. Key resolution by name (strings; Table._resolve_column has its own discharged contract), three or more key columns and wider tables are covered by the bounded stand-in (all table pairs up to 3x3 rows, 4x4 thorough, 1-3 keys, several hash seeds) which also supplies replayable inputs.",
-        'trusted': ['_validate_key_tuple_hashable: trusted contract (may raise SerifTypeError, no effect)', 'dict / list / set: insertion-ordered map, append, membership by == (symbolic container model, pyvc/symcoll.py); key equality only, no hash values', 'schema width fixed at 1 or 2 key columns + 1 payload column per side in the proofs; rows unbounded'],
+        'trusted': ['dict / list / set: insertion-ordered map, append, membership by == (symbolic container model, pyvc/symcoll.py); key equality only, no hash values', 'schema width fixed at 1 or 2 key columns + 1 payload column per side in the proofs; rows unbounded'],
     },
     'C10': {
         'level': 'proof',
         'explanation': "Phase proofs on the real text of Table.join (left join) and Table.full_join, arbitrary rows and keys, one key and one payload column per side. Left join: index-build invariant (as C09), probe / emit invariants - every left row contributes one contiguous block, in left order: one row per key-equal right row in ascending right order, or exactly one row padded with None in every right column when nothing matches - and the exit assertion (buffers wrapped under the input names; no columns for an empty left table). Full join: the same left phase plus an exact `matched_right_rows` set (a right row is recorded iff its key occurs among the processed left rows; ghost witness), the third loop appends every unmatched right row exactly once in ascending order with None in every left column and leaves the left-phase rows untouched, and the exit assertion wraps the buffers. The containment / symmetry relations between the three joins, two-key variants run in the thorough tier; three or more key columns and name-resolved keys are bounded only (same enumerator as C09: all table pairs up to 3x3 rows, 4x4 thorough).",
-        'trusted': ['_validate_key_tuple_hashable: trusted contract (may raise SerifTypeError, no effect)', 'symbolic container model for dict / list / set (pyvc/symcoll.py)', 'schema width fixed at 1 or 2 key columns + 1 payload column per side in the proofs; rows unbounded'],
+        'trusted': ['symbolic container model for dict / list / set (pyvc/symcoll.py)', 'schema width fixed at 1 or 2 key columns + 1 payload column per side in the proofs; rows unbounded'],
     },
     'C11': {
         'level': 'proof',
